@@ -30,6 +30,7 @@ type Config struct {
 	Params     map[string]int64
 	Concrete   map[string]replayInput // selftest: inputs come from here
 	Known      map[string]bool
+	Stubs      map[string]*ssa.Function // full name of a replaced function -> harness function (DESIGN 3.6(6))
 }
 
 // Dec is one recorded decision; K carries the candidate value of a concretisation so
